@@ -11,7 +11,7 @@ import z3
 
 from rows import BOX, INT_MAX, box_rows, neg_row, rows_vars, row_vars
 
-NONE = {"kind": "none", "mu": 1, "lam": {}, "d": 1, "q": {}}
+NONE = {"kind": "none", "mu": 1, "lam": {}, "d": 1, "q": {}, "w": {}}
 STATS = {"cert_exact": 0, "cert_tol": 0, "witness": 0, "none": 0, "overflow": 0, "z3_calls": 0}
 
 
@@ -266,8 +266,56 @@ def guarded_witness(base, comps, names, t):
     return None
 
 
+def witness2(hyp, names, t):
+    """Two-scale witness  p0 + w/D  for thin wedges far from the origin (see Poly!WitnessOK2): exact
+    rational point maximising the margin, then split into an integer part and a remainder on a 1/D grid;
+    every inequality is re-checked exactly, with the same floor-division arithmetic TLC uses."""
+    STATS["z3_calls"] += 1
+    o = z3.Optimize()
+    X = {n: z3.Real(n) for n in names}
+    m = z3.Real("margin")
+    for n in names:
+        o.add(X[n] <= BOX - 2, X[n] >= -(BOX - 2))
+
+    def lin(co):
+        terms = [a * X[v] for v, a in co.items() if a != 0]
+        return z3.Sum(terms) if terms else z3.RealVal(0)
+
+    for r in hyp:
+        o.add(lin(r["co"]) + m * max(1, sum(abs(a) for a in r["co"].values())) <= r["c"])
+    tol = F(t["k"] + abs(t["c"]), 10000)
+    o.add(lin(t["co"]) - t["c"] >= z3.Q(tol.numerator, tol.denominator) + m * max(1, sum(abs(a) for a in t["co"].values())))
+    o.add(m >= 0)
+    o.maximize(m)
+    if o.check() != z3.sat:
+        return None
+    mod = o.model()
+    P = {n: _frac(mod.eval(X[n], model_completion=True)) for n in names}
+    for D in (1000, 2000, 500, 1500):
+        p0 = {n: int(round(P[n])) for n in names}
+        w = {n: int(round((P[n] - p0[n]) * D)) for n in names}
+
+        def dot(r, vec):
+            return sum(a * vec.get(v, 0) for v, a in r["co"].items())
+
+        ok = all(abs(p0[n]) <= BOX - 1 and abs(w[n]) <= D for n in names)
+        big = 0
+        for r in hyp + [t]:
+            big = max(big, sum(abs(a * p0.get(v, 0)) for v, a in r["co"].items()) + abs(r["c"]), sum(abs(a * w.get(v, 0)) for v, a in r["co"].items()))
+        ok = ok and big <= INT_MAX
+        if not ok:
+            continue
+        if not all(dot(r, p0) - r["c"] <= (-dot(r, w)) // D for r in hyp):
+            continue
+        E, W = dot(t, p0) - t["c"], dot(t, w)
+        if abs(E) <= 200000 and abs(W) <= 200000 and 10000 * E - (t["k"] + abs(t["c"])) > (-(10000 * W)) // D:
+            STATS["witness"] += 1
+            return {"kind": "witness2", "mu": 1, "lam": {}, "d": D, "q": p0, "w": w}
+    return None
+
+
 def witness(hyp, names, t):
-    return guarded_witness(hyp, [], names, t)
+    return guarded_witness(hyp, [], names, t) or witness2(hyp, names, t)
 
 
 # ------------------------------------------------------------------ decisions (hint only)
